@@ -396,14 +396,24 @@ def check_jaxcg(ctx):
 # ------------------------------------------------------------------ flax cg_solver (scan)
 
 def gen_scan_case(rng, i):
+    """i % 5 in (1, 3): complex Hermitian positive-definite system (complex128 / complex64, 1-D or 2-D unknown,
+    with / without x0), compared iterate for iterate with the proved CG model; otherwise the real designs
+    (random, b = 0, x0 = solution, scaled identity) including the exact-convergence cases of the known finding."""
+    cplx = i % 5 in (1, 3)
     n = rng.randint(1, 4)
-    design = ["random", "random", "random", "b=0", "x0=solution", "scaled-identity"][i % 6]
+    design = "random" if cplx else ["random", "random", "random", "b=0", "x0=solution", "scaled-identity"][i % 6]
+    dtype = ("complex64" if i % 2 == 0 else "complex128") if cplx else "float64"
+    shape = None
+    if rng.random() < 0.5 and n >= 2:
+        shape = {2: [2, 1], 3: [1, 3], 4: [2, 2]}[n]
     if design == "scaled-identity":
         A = rng.choice([0.5, 1.0, 2.0, 4.0]) * np.eye(n)
     else:
-        A = gen_hpd(rng, n, False)
-    b = gen_vec(rng, n, False)
-    x0 = gen_vec(rng, n, False, den=2, lo=-2, hi=2) if rng.random() < 0.5 else None
+        A = gen_hpd(rng, n, cplx)
+    b = gen_vec(rng, n, cplx)
+    if cplx and not np.any(b):
+        b[0] = 1.0
+    x0 = gen_vec(rng, n, cplx, den=2, lo=-2, hi=2) if rng.random() < 0.5 else None
     zero_at = None                      # scan step index at which the residual is exactly zero
     if design == "b=0":
         b, x0, zero_at = np.zeros(n), None, 0
@@ -413,61 +423,98 @@ def gen_scan_case(rng, i):
     elif design == "scaled-identity":
         x0 = None
         zero_at = 0 if not np.any(b) else 1
-    return {"n": n, "A": enc(A), "b": enc(b), "x0": None if x0 is None else enc(x0), "design": design,
-            "zero_at": zero_at}
+    return {"n": n, "complex": cplx, "dtype": dtype, "shape": shape, "A": enc(A), "b": enc(b),
+            "x0": None if x0 is None else enc(x0), "design": design, "zero_at": zero_at}
 
 
 def run_scan_impl(c, maxiter):
     import jax.numpy as jnp
     from scico.flax.inverse import cg_solver
-    Aj = jnp.array(np.array(c["A"]))
-    x0 = None if c["x0"] is None else jnp.array(np.array(c["x0"]))
-    return np.asarray(cg_solver(lambda v: Aj @ v, jnp.array(np.array(c["b"])), x0, maxiter=maxiter))
+    cplx = c.get("complex", False)
+    dt = np.dtype(c.get("dtype", "float64"))
+    shp = tuple(c["shape"]) if c.get("shape") else (c["n"],)
+    Aj = jnp.array(dec(c["A"], cplx).astype(dt))
+    x0 = None if c["x0"] is None else jnp.array(dec(c["x0"], cplx).astype(dt).reshape(shp))
+    b = jnp.array(dec(c["b"], cplx).astype(dt).reshape(shp))
+    x = cg_solver(lambda v: (Aj @ v.ravel()).reshape(shp), b, x0, maxiter=maxiter)
+    if np.dtype(x.dtype) != dt or tuple(x.shape) != shp:
+        raise Broken("harness: cg_solver changed dtype/shape", f"{x.dtype} {x.shape} vs {dt} {shp}")
+    return np.asarray(x).ravel()
+
+
+def scan_prec(c):
+    """(relative precision of the working dtype as used by the oracles, Coq comparison tolerance)"""
+    return (1e-5, 2.0 ** -12) if c.get("dtype") == "complex64" else (1e-13, 2.0 ** -30)
 
 
 def scan_oracle(c, maxiter, x):
-    A, b = np.array(c["A"]), np.array(c["b"])
+    cplx = c.get("complex", False)
+    A, b = dec(c["A"], cplx), dec(c["b"], cplx)
     if not np.all(np.isfinite(x)):
         return [("cg_solver (lax.scan) returns nan: 0/0 once the residual is exactly zero", "finite solution", "nan")]
     if c["design"] == "random" and maxiter >= c["n"] + 2:
         nr, nb = float(np.linalg.norm(b - A @ x)), float(np.linalg.norm(b))
-        if nr > 1e-6 * nb + 1e-9:
-            return [("cg_solver does not solve the SPD system after n+2 iterations", "<= 1e-6 ||b||", nr)]
+        rel = 1e-3 if c.get("dtype") == "complex64" else 1e-6
+        if nr > rel * nb + rel * 1e-3:
+            return [("cg_solver does not solve the Hermitian positive-definite system after n+2 iterations",
+                     f"<= {rel} ||b||", nr)]
     return []
 
 
+def coq_scan_item(c, obs):
+    cplx = c.get("complex", False)
+    n = c["n"]
+    A, b = dec(c["A"], cplx), dec(c["b"], cplx)
+    x0 = np.zeros(n, dtype=A.dtype) if c["x0"] is None else dec(c["x0"], cplx)
+    ob = [f"({k}%nat, " + ("None" if not np.all(np.isfinite(x)) else f"(Some {qvec(x, cplx)})") + ")" for k, x in obs]
+    exact = "true" if c["design"] != "random" else "false"
+    if cplx:
+        return (f"({n}%nat, {qmat(A, True)}, {qvec(b, True)}, {qvec(x0, True)}, {exact}, {qlit(scan_prec(c)[1])}, "
+                f"{coq_list(ob)})")
+    return f"({n}%nat, {qmat(A, False)}, {qvec(b, False)}, {qvec(x0, False)}, {exact}, {coq_list(ob)})"
+
+
+def scan_observe(c):
+    """run cg_solver for maxiter = 0..n+2; returns [(k, x, inp)] with the known-finding flag derived from the data"""
+    cplx = c.get("complex", False)
+    conv_at = c["zero_at"]              # first scan index whose iterate already solves the system
+    Am, bm = dec(c["A"], cplx), dec(c["b"], cplx)
+    prec = scan_prec(c)[0]
+    res = []
+    for k in range(0, c["n"] + 3):
+        x = run_scan_impl(c, k)
+        if conv_at is None and np.all(np.isfinite(x)) and \
+                np.linalg.norm(bm - Am @ x) <= prec * (1 + np.linalg.norm(bm)):
+            conv_at = k
+        inp = {**c, "maxiter": k, "zero_residual_before_end": conv_at is not None and k >= conv_at + 1}
+        res.append((k, x, inp))
+    return res
+
+
 def check_scan(ctx):
-    ncase = ctx.n(18, 60)
-    items, meta = [], []
+    ncase = ctx.n(20, 60)
+    items = {False: [], True: []}
+    meta = {False: [], True: []}
     for i in range(ncase):
         c = gen_scan_case(ctx.rng, i)
         obs = []
-        conv_at = c["zero_at"]          # first scan index whose iterate already solves the system
-        Am, bm = np.array(c["A"]), np.array(c["b"])
-        for k in range(0, c["n"] + 3):
-            x = run_scan_impl(c, k)
+        for k, x, inp in scan_observe(c):
             obs.append((k, x))
-            if conv_at is None and np.all(np.isfinite(x)) and \
-                    np.linalg.norm(bm - Am @ x) <= 1e-13 * (1 + np.linalg.norm(bm)):
-                conv_at = k
-            inp = {**c, "maxiter": k, "zero_residual_before_end": conv_at is not None and k >= conv_at + 1}
-            ctx.count("cg_solver/" + c["design"], inp, nontrivial=c["n"] >= 2 and k >= 1)
+            ctx.count("cg_solver/" + c["design"] + "/" + c["dtype"] + ("/2-D" if c["shape"] else "")
+                      + ("/x0" if c["x0"] is not None else ""), inp, nontrivial=c["n"] >= 2 and k >= 1)
             for what, exp, ob in scan_oracle(c, k, x):
                 ctx.violation("cg_solver", what, inp, expected=exp, observed=ob,
                               oracle="finite result / numpy residual (C14_cg_solver_nan_after_exact_convergence)")
-        n = c["n"]
-        x0 = np.zeros(n) if c["x0"] is None else np.array(c["x0"])
-        ob = [f"({k}%nat, " + ("None" if not np.all(np.isfinite(x)) else f"(Some {qvec(x, False)})") + ")" for k, x in obs]
-        items.append(f"({n}%nat, {qmat(np.array(c['A']), False)}, {qvec(np.array(c['b']), False)}, {qvec(x0, False)}, "
-                     f"{'true' if c['design'] != 'random' else 'false'}, {coq_list(ob)})")
-        meta.append((c, obs))
-    bad, _ = eval_bad_fragile("C14_scan", HEADER, items, "r_scan_case_ok", "(fun _ : scase => false)", "scase", shard=ctx.n(6, 25))
-    ctx.traces += len(items)
-    for i in sorted(bad):
-        c, o = meta[i]
-        ctx.violation("cg_solver-model", "flax cg_solver differs from the proved scan model", c,
-                      expected="CGExec.r_cg_solver by vm_compute", observed=[[k, enc(x)] for k, x in o],
-                      oracle="C14_cg_solver_scan_invariant")
+        items[c["complex"]].append(coq_scan_item(c, obs))
+        meta[c["complex"]].append((c, obs))
+    for cplx, okf, ct, nm in ((False, "r_scan_case_ok", "scase", "C14_scan"), (True, "c_scan_case_ok", "cscase", "C14_scan_c")):
+        bad, _ = eval_bad_fragile(nm, HEADER, items[cplx], okf, f"(fun _ : {ct} => false)", ct, shard=ctx.n(4, 20))
+        ctx.traces += len(items[cplx])
+        for i in sorted(bad):
+            c, o = meta[cplx][i]
+            ctx.violation("cg_solver-model", "flax cg_solver differs from the proved CG model (iterate after maxiter scan steps)", c,
+                          expected="CGExec.r_cg_solver / c_cg_solver by vm_compute (= CG.iter, theorem C14_cg_solver_is_cg_iterate)",
+                          observed=[[k, enc(x)] for k, x in o], oracle="C14_cg_solver_is_cg_iterate / C14_cg_solver_scan_invariant")
 
 
 # ------------------------------------------------------------------ lstsq
@@ -545,7 +592,10 @@ def gen_atad_case(rng, i):
     pert = gen_vec(rng, cols, cplx, den=2, lo=-1, hi=1)
     return {"complex": cplx, "shape": shape, "D_kind": dkind, "rhs": rhs, "rows": rows, "cols": cols, "A": enc(A),
             "D": enc(D), "W": None if W is None else enc(W), "b": enc(b), "pert": enc(pert),
-            "cho": rng.random() < 0.4, "D_obj": rng.choice(["array", "operator"])}
+            # constructor flags: Cholesky in two thirds of the cases, lower / upper triangle and check_finite both
+            # ways, in patterns whose periods (3, 4, 5) are coprime to those of the attributes above
+            "cho": i % 3 != 2, "lower": [False, True, True, False][i % 4], "check_finite": i % 5 != 0,
+            "D_obj": rng.choice(["array", "operator"])}
 
 
 def atad_oracle(c):
@@ -558,8 +608,9 @@ def atad_oracle(c):
     Dj = jnp.array(D)
     if c["D_obj"] == "operator":
         Dj = Diagonal(Dj) if D.ndim == 1 else MatrixOperator(Dj)
-    slv = solver.MatrixATADSolver(jnp.array(A), Dj, W=None if W is None else jnp.array(W), cho_factor=c["cho"])
-    x = np.asarray(slv.solve(jnp.array(b)))
+    slv = solver.MatrixATADSolver(jnp.array(A), Dj, W=None if W is None else jnp.array(W), cho_factor=c["cho"],
+                                  lower=c.get("lower", False), check_finite=c.get("check_finite", True))
+    x = np.asarray(slv.solve(jnp.array(b), check_finite=None if c.get("check_finite", True) else False))
     Wm = np.eye(A.shape[0]) if W is None else np.diag(W)
     G = A.conj().T @ Wm @ A + (np.diag(D) if D.ndim == 1 else D)
     out = []
@@ -567,7 +618,9 @@ def atad_oracle(c):
     scale = float(np.linalg.norm(G) * np.linalg.norm(x) + np.linalg.norm(b))
     path = "Woodbury" if (A.shape[0] < A.shape[1] and D.ndim == 1) else "direct"
     if not np.all(np.isfinite(x)) or nres > 1e-9 * scale + 1e-12:
-        out.append((f"MatrixATADSolver.solve ({path} path) does not solve (A^H W A + D) x = b", "residual <= 1e-9 scale", nres))
+        fac = f"cho_factor=True, lower={c.get('lower', False)}" if c["cho"] else "LU"
+        out.append((f"MatrixATADSolver.solve ({path} path, {fac}) does not solve (A^H W A + D) x = b",
+                    "residual <= 1e-9 scale", nres))
 
     def true_rr(xx):
         ax = G @ xx
@@ -593,11 +646,12 @@ def atad_oracle(c):
 def check_atad(ctx):
     for i in range(ctx.n(24, 72)):
         c = gen_atad_case(ctx.rng, i)
-        ctx.count(f"MatrixATADSolver/{'complex' if c['complex'] else 'real'}/{c['shape']}/D={c['D_kind']}/{c['rhs']}",
+        ctx.count(f"MatrixATADSolver/{'complex' if c['complex'] else 'real'}/{c['shape']}/D={c['D_kind']}/{c['rhs']}/"
+                  + (f"cho-{'lower' if c['lower'] else 'upper'}" if c["cho"] else "lu"),
                   c, nontrivial=c["rows"] * c["cols"] >= 2)
         for what, exp, ob in atad_oracle(c):
             ctx.violation("MatrixATADSolver", what, c, expected=exp, observed=ob,
-                          oracle="numpy: system assembled independently (C14_matrixATAD_*)")
+                          oracle="numpy: system assembled independently (C14_matrixATAD_*_all_flags, C14_matrixATAD_accuracy)")
 
 
 # ------------------------------------------------------------------ ConvATADSolver
@@ -971,13 +1025,10 @@ def replay(ctx: Ctx, rec):
     if unit == "cg_solver":
         return not scan_oracle(c, c["maxiter"], run_scan_impl(c, c["maxiter"]))
     if unit == "cg_solver-model":
-        n = c["n"]
-        obs = [(k, run_scan_impl(c, k)) for k in range(0, n + 3)]
-        x0 = np.zeros(n) if c["x0"] is None else np.array(c["x0"])
-        ob = [f"({k}%nat, " + ("None" if not np.all(np.isfinite(x)) else f"(Some {qvec(x, False)})") + ")" for k, x in obs]
-        item = (f"({n}%nat, {qmat(np.array(c['A']), False)}, {qvec(np.array(c['b']), False)}, {qvec(x0, False)}, "
-                f"{'true' if c['design'] != 'random' else 'false'}, {coq_list(ob)})")
-        bad, _ = eval_bad_fragile("C14_replay", HEADER, [item], "r_scan_case_ok", "(fun _ : scase => false)", "scase")
+        obs = [(k, x) for k, x, _ in scan_observe(c)]
+        cplx = c.get("complex", False)
+        okf, ct = ("c_scan_case_ok", "cscase") if cplx else ("r_scan_case_ok", "scase")
+        bad, _ = eval_bad_fragile("C14_replay", HEADER, [coq_scan_item(c, obs)], okf, f"(fun _ : {ct} => false)", ct)
         return not bad
     if unit == "lstsq":
         return not lstsq_oracle(c)
